@@ -18,6 +18,9 @@ Hypotheses that appear below (all explicit and decidable):
   reached, would never leave): `live_zero_duration`.
 * `nl * totalDuration ps ≤ F` – the loop count the float floor-division produced is not too
   large (it is `⌊F / D⌋` exactly: `live_periods_exact`).  Excluded point: `live_cover_needs_loop_count`.
+* `StartsInsideLoop durs R`, `PositiveDurs durs` – the C02 hypotheses H1, H2 (every stored
+  segment starts inside one loop of the timing reference and is not empty); used only by the
+  `$Time$` / SegmentTimeline theorems, where a listed time must resolve to its own segment.
 * `durUs * ts ≤ (n − i₀) · sd · 10⁶` – the Period is not longer than what the `n − i₀` source
   segments from the selected one can be numbered for; this is *exactly* the condition
   under which every admitted number is served (`mps_admitted_tight`), and it follows from
@@ -97,6 +100,28 @@ theorem vod_periods_end (ps : List PeriodDef) (h : 0 < (vodPeriods ps).length) :
   simp only [hl]
   unfold totalDuration
   omega
+
+/-- **what the manifest writes is exact** (fix 983f9d5): the builders work on the presentation
+durations (stored durations rounded to a millisecond), so every VOD Period start, duration
+and the mediaPresentationDuration are whole milliseconds – the resolution of the
+`xs:duration` text – and each is within half a millisecond of the stored duration -/
+theorem vod_periods_whole_ms (ps : List PeriodDef) :
+    (∀ p, p ∈ vodPeriods (presented ps) → 1000 ∣ p.start ∧ 1000 ∣ p.dur) ∧
+    1000 ∣ vodMediaDuration (presented ps) := by
+  have hd := presented_durations_dvd ps
+  constructor
+  · intro p hp
+    obtain ⟨i, hi, rfl⟩ := List.getElem_of_mem hp
+    have hl : (vodLoop (presented ps) 0).1.length = (presented ps).length := vodLoop_length _ 0
+    unfold vodPeriods at hi ⊢
+    rw [vodLoop_getElem (presented ps) 0 i hi (by omega)]
+    refine ⟨?_, ?_⟩
+    · simp only [Nat.zero_add]; exact prefixSum_dvd _ 1000 _ hd
+    · apply hd
+      unfold durations
+      exact List.mem_map.mpr ⟨_, List.getElem_mem (by omega), rfl⟩
+  · rw [(vod_periods_sum (presented ps)).2]
+    exact sum_dvd _ 1000 hd
 
 /-! ## live: `create_all_live_periods` -/
 
@@ -255,6 +280,24 @@ theorem live_ids_unique (ps : List PeriodDef) (E F nl : Nat) (l : List OutPeriod
   have := Nat.div_add_mod y ps.length
   rw [h2, h4] at *
   omega
+
+/-- every listed live Period starts and lasts a whole number of milliseconds (fix 983f9d5) -/
+theorem live_periods_whole_ms (ps : List PeriodDef) (E F nl : Nat) (l : List OutPeriod)
+    (hD : 0 < totalDuration (presented ps)) (h : livePeriodsFrom (presented ps) E F nl = some l) :
+    ∀ p, p ∈ l → 1000 ∣ p.start ∧ 1000 ∣ p.dur := by
+  have hn := pos_of_total_pos hD
+  have hd := presented_durations_dvd ps
+  obtain ⟨s, e, _, _, hl, _⟩ := livePeriodsFrom_char (presented ps) E F nl l hn h
+  intro p hp
+  rw [hl, List.mem_map] at hp
+  obtain ⟨x, _, rfl⟩ := hp
+  refine ⟨?_, ?_⟩
+  · unfold pos totalDuration; exact startG_dvd _ 1000 _ hd
+  · rw [pos_dur]
+    unfold durG
+    by_cases hq : x % (durations (presented ps)).length < (durations (presented ps)).length
+    · rw [durAt_of_lt hq]; exact hd _ (List.getElem_mem hq)
+    · unfold durAt; simp [List.getD, hq]
 
 /-- **the builder as it runs** (exact loop count `⌊F / D⌋`): for a positive total duration and
 `F ≤ E` it returns a list, and that list has all the properties above -/
@@ -530,30 +573,167 @@ theorem mps_admitted_of_fits (durs : List Nat) (R tc sd ts durUs : Nat) (hR : 0 
       (durs.length - index durs R tc) * sd * 1000000 := Nat.mul_le_mul_right _ hsd
   exact Nat.le_trans h1 h2
 
-/-- **`$Time$ = t` of a Period** (fix 3d7a0df) delivers the stored segment whose start is
-nearest `offset + t`, with decode time `st + t` – exactly the requested time, counted from
-zero at the Period start – and the number it would have under `$Number$` addressing;
-anything that maps past the last stored segment is 404. -/
-theorem mps_time_maps (durs : List Nat) (R sn tc st t : Nat) (hR : 0 < R) (hn : 0 < durs.length) :
+/-- **`$Time$ = t` of a Period** (fixes 3d7a0df, 488ab59): times count from the start of the
+Period's first segment `i₀`; the request delivers the stored segment `g` whose start is
+nearest `P_{i₀} + t`, with the decode time and number it has under `$Number$` addressing
+(`st + P_g − P_{i₀}`, `sn + g − i₀`); anything that maps past the last stored segment – or a
+Period that starts past the media – is 404. -/
+theorem mps_time_maps (durs : List Nat) (R sn tc st t : Nat) (hn : 0 < durs.length)
+    (h1 : StartsInsideLoop durs R) (h2 : PositiveDurs durs) :
     mpsRequest durs (some fun j => st + prefixSum durs j) R sn tc (.time t) =
-      if index durs R (tc + t) < durs.length then
-        .segment (index durs R (tc + t)) ((st : Int) + t)
-          ((sn : Int) + ((index durs R (tc + t) - index durs R tc : Nat) : Int))
+      if index durs R tc < durs.length ∧
+          index durs R (prefixSum durs (index durs R tc) + t) < durs.length then
+        .segment (index durs R (prefixSum durs (index durs R tc) + t))
+          ((st : Int) + ((prefixSum durs (index durs R (prefixSum durs (index durs R tc) + t))
+            - prefixSum durs (index durs R tc) : Nat) : Int))
+          ((sn : Int) + ((index durs R (prefixSum durs (index durs R tc) + t) - index durs R tc : Nat) : Int))
       else .notFound := by
+  have hR : 0 < R := by have := h1 0 hn; omega
   unfold mpsRequest
   rw [mpsIndex_time durs R sn tc t hR hn]
-  by_cases h1 : index durs R (tc + t) < durs.length
-  · have h2 : ¬ durs.length ≤ index durs R (tc + t) := by omega
-    have h3 : ¬ ((index durs R (tc + t) : Int) + 1 < 1 ∨ (index durs R (tc + t) : Int) + 1 > durs.length) := by omega
-    have h4 : ((index durs R (tc + t) : Int) + 1 - 1).toNat = index durs R (tc + t) := by omega
-    simp only [h1, h2, if_true, if_false, mpsServe, h3, h4]
-    have h5 : ¬ (((st + prefixSum durs (index durs R (tc + t)) : Nat) : Int) +
-        (-(prefixSum durs (index durs R (tc + t)) : Int) + t) < 0) := by omega
-    simp only [h5, if_false]
+  by_cases ha : index durs R tc < durs.length
+  · by_cases hb : index durs R (prefixSum durs (index durs R tc) + t) < durs.length
+    · have hge : index durs R tc ≤ index durs R (prefixSum durs (index durs R tc) + t) := by
+        have := index_mono durs R (prefixSum durs (index durs R tc))
+          (prefixSum durs (index durs R tc) + t) hR hn (by omega)
+        rw [index_at_start durs R _ hn ha h1 h2] at this
+        exact this
+      have hm := prefixSum_mono durs hge
+      have e1 : ¬ durs.length ≤ index durs R tc := by omega
+      have e2 : ¬ durs.length ≤ index durs R (prefixSum durs (index durs R tc) + t) := by omega
+      have e3 : ¬ ((index durs R (prefixSum durs (index durs R tc) + t) : Int) + 1 < 1 ∨
+          (index durs R (prefixSum durs (index durs R tc) + t) : Int) + 1 > durs.length) := by omega
+      have e4 : ((index durs R (prefixSum durs (index durs R tc) + t) : Int) + 1 - 1).toNat
+          = index durs R (prefixSum durs (index durs R tc) + t) := by omega
+      simp only [ha, hb, and_self, e1, e2, if_true, if_false, mpsServe, e3, e4]
+      have e5 : ¬ (((st + prefixSum durs (index durs R (prefixSum durs (index durs R tc) + t)) : Nat) : Int) +
+          -(prefixSum durs (index durs R tc) : Int) < 0) := by omega
+      simp only [e5, if_false]
+      congr 1
+      · omega
+      · omega
+    · have e1 : ¬ durs.length ≤ index durs R tc := by omega
+      have e2 : durs.length ≤ index durs R (prefixSum durs (index durs R tc) + t) := by omega
+      simp only [ha, hb, and_false, e1, e2, if_true, if_false, mpsServe]
+  · have e1 : durs.length ≤ index durs R tc := by omega
+    simp only [ha, false_and, e1, if_true, if_false, mpsServe]
+
+/-- **the SegmentTimeline of a Period lists what the Period plays** (fix 488ab59).  Entry `j`
+of the (DASH-expanded) timeline of a Period is `(t_j, d_j) = (P_{i₀+j} − P_{i₀}, d_{i₀+j})`:
+the source segments from the selected one, with times counted from zero at the Period start;
+every listed segment exists, starts inside the Period's duration, and requesting
+`$Time$ = t_j` delivers exactly stored segment `i₀ + j` with decode time `st + t_j` and
+sequence number `sn + j`.  For every offset, duration and track (no `hfit`: the list is cut
+at the end of the source). -/
+theorem mps_timeline_lists_admitted (durs : List Nat) (R ts sn tc st durUs : Nat)
+    (hn : 0 < durs.length) (h1 : StartsInsideLoop durs R) (h2 : PositiveDurs durs)
+    (hin : index durs R tc < durs.length) :
+    ∀ j (h : j < (expand (periodTimeline durs R ts tc durUs)).length),
+      (expand (periodTimeline durs R ts tc durUs))[j] =
+        (((prefixSum durs (index durs R tc + j) - prefixSum durs (index durs R tc) : Nat) : Int),
+         (durAt durs (index durs R tc + j) : Int)) ∧
+      index durs R tc + j < durs.length ∧
+      (prefixSum durs (index durs R tc + j) - prefixSum durs (index durs R tc)) * 1000000 < durUs * ts ∧
+      mpsRequest durs (some fun k => st + prefixSum durs k) R sn tc
+          (.time (prefixSum durs (index durs R tc + j) - prefixSum durs (index durs R tc))) =
+        .segment (index durs R tc + j)
+          ((st : Int) + ((prefixSum durs (index durs R tc + j) - prefixSum durs (index durs R tc) : Nat) : Int))
+          ((sn : Int) + j) := by
+  intro j h
+  have hx := periodTimeline_expand durs R ts tc durUs hn hin
+  have hspec := (ptRaw_spec durs (durUs * ts) (durs.length + 1) (index durs R tc) 0).1 j
+    (by rw [← hx]; exact h)
+  obtain ⟨e1, e2, e3⟩ := hspec
+  have hm := prefixSum_mono durs (j := index durs R tc) (k := index durs R tc + j) (by omega)
+  have hcast : ((0 : Nat) : Int) + (prefixSum durs (index durs R tc + j) : Int) - (prefixSum durs (index durs R tc) : Int)
+      = ((prefixSum durs (index durs R tc + j) - prefixSum durs (index durs R tc) : Nat) : Int) := by omega
+  rw [hcast] at e1 e3
+  refine ⟨?_, e2, by exact_mod_cast e3, ?_⟩
+  · simp only [hx]; exact e1
+  · rw [mps_time_maps durs R sn tc st _ hn h1 h2]
+    have hsum : prefixSum durs (index durs R tc) +
+        (prefixSum durs (index durs R tc + j) - prefixSum durs (index durs R tc))
+        = prefixSum durs (index durs R tc + j) := by omega
+    rw [hsum, index_at_start durs R _ hn e2 h1 h2]
+    simp only [hin, e2, and_self, if_true]
     congr 1
     omega
-  · have h2 : durs.length ≤ index durs R (tc + t) := by omega
-    simp only [h1, h2, if_true, if_false, mpsServe]
+
+/-- the listed entries are gapless: each one starts where the previous one ends, and the
+first one starts at 0 -/
+theorem mps_timeline_gapless (durs : List Nat) (R ts tc durUs : Nat) (hn : 0 < durs.length)
+    (hin : index durs R tc < durs.length) :
+    (∀ (h : 0 < (expand (periodTimeline durs R ts tc durUs)).length),
+      (expand (periodTimeline durs R ts tc durUs))[0].1 = 0) ∧
+    ∀ j (h : j + 1 < (expand (periodTimeline durs R ts tc durUs)).length),
+      (expand (periodTimeline durs R ts tc durUs))[j].1 + (expand (periodTimeline durs R ts tc durUs))[j].2
+        = (expand (periodTimeline durs R ts tc durUs))[j + 1].1 := by
+  have hx := periodTimeline_expand durs R ts tc durUs hn hin
+  constructor
+  · intro h
+    have := (ptRaw_spec durs (durUs * ts) (durs.length + 1) (index durs R tc) 0).1 0 (by rw [← hx]; exact h)
+    simp only [hx, this.1]
+    simp
+  · intro j h
+    simp only [hx]
+    exact accumulate_gapless _ _ j (by rw [← hx]; exact h)
+
+/-- **the list is complete**: it stops only at the last stored segment or once the Period's
+duration is covered (the next segment would start at or after the end of the Period) -/
+theorem mps_timeline_complete (durs : List Nat) (R ts tc durUs : Nat) (hn : 0 < durs.length)
+    (hin : index durs R tc < durs.length) :
+    index durs R tc + (expand (periodTimeline durs R ts tc durUs)).length = durs.length ∨
+    (index durs R tc + (expand (periodTimeline durs R ts tc durUs)).length < durs.length ∧
+      durUs * ts ≤ (prefixSum durs (index durs R tc + (expand (periodTimeline durs R ts tc durUs)).length)
+        - prefixSum durs (index durs R tc)) * 1000000) := by
+  have hx := periodTimeline_expand durs R ts tc durUs hn hin
+  have hlen : (expand (periodTimeline durs R ts tc durUs)).length
+      = (ptRaw durs (durUs * ts) (durs.length + 1) (index durs R tc) 0).length := by
+    rw [hx, accumulate_length]
+  rw [hlen]
+  have := (ptRaw_spec durs (durUs * ts) (durs.length + 1) (index durs R tc) 0).2 (by omega) (by omega)
+  rcases this with h | ⟨h, h'⟩
+  · left; exact h
+  · right
+    refine ⟨h, ?_⟩
+    have hm := prefixSum_mono durs (j := index durs R tc)
+      (k := index durs R tc + (ptRaw durs (durUs * ts) (durs.length + 1) (index durs R tc) 0).length) (by omega)
+    have : (((prefixSum durs (index durs R tc + (ptRaw durs (durUs * ts) (durs.length + 1) (index durs R tc) 0).length)
+        - prefixSum durs (index durs R tc)) * 1000000 : Nat) : Int)
+        = (((0 : Nat) : Int) + prefixSum durs (index durs R tc + (ptRaw durs (durUs * ts) (durs.length + 1) (index durs R tc) 0).length)
+          - prefixSum durs (index durs R tc)) * 1000000 := by
+      push_cast; omega
+    exact_mod_cast (this ▸ h')
+
+/-- a Period whose source offset is past the media lists nothing (and every request is 404) -/
+theorem mps_timeline_empty_past_media (durs : List Nat) (R ts tc durUs : Nat) (hR : 0 < R)
+    (hn : 0 < durs.length) (hout : durs.length ≤ index durs R tc) :
+    periodTimeline durs R ts tc durUs = [] := by
+  unfold periodTimeline
+  simp only [getSegmentIndex_eq durs R tc hn]
+  have h1 : 1 ≤ index durs R tc / durs.length := (Nat.le_div_iff_mul_le hn).mpr (by omega)
+  have h2 := Nat.mul_le_mul_right R h1
+  have h3 : index durs R tc / durs.length * R > 0 := by omega
+  simp only [h3, if_true]
+
+/-- `$Time$` and `$Number$` addressing agree: the listed time of entry `j` and number `sn + j`
+deliver the same segment with the same decode time and sequence number -/
+theorem mps_time_equals_number (durs : List Nat) (R sn tc st j : Nat) (hn : 0 < durs.length)
+    (h1 : StartsInsideLoop durs R) (h2 : PositiveDurs durs) (hj : index durs R tc + j < durs.length) :
+    mpsRequest durs (some fun k => st + prefixSum durs k) R sn tc
+        (.time (prefixSum durs (index durs R tc + j) - prefixSum durs (index durs R tc))) =
+      mpsRequest durs (some fun k => st + prefixSum durs k) R sn tc (.number ((sn : Int) + j)) := by
+  have hR : 0 < R := by have := h1 0 hn; omega
+  have hm := prefixSum_mono durs (j := index durs R tc) (k := index durs R tc + j) (by omega)
+  rw [mps_number_maps durs R sn tc st j hR hn, mps_time_maps durs R sn tc st _ hn h1 h2]
+  have hsum : prefixSum durs (index durs R tc) +
+      (prefixSum durs (index durs R tc + j) - prefixSum durs (index durs R tc))
+      = prefixSum durs (index durs R tc + j) := by omega
+  rw [hsum, index_at_start durs R _ hn hj h1 h2]
+  have hin : index durs R tc < durs.length := by omega
+  simp only [hin, hj, and_self, if_true]
+  congr 1
+  omega
 
 /-! ### non-vacuity and excluded points (media requests) -/
 
@@ -576,5 +756,21 @@ example : ¬ (40000000 * 240 ≤ (10 - 1) * 960 * 1000000) ∧ 9 * 960 * 1000000
 
 /-- a Period whose source offset is past the middle of the last segment is refused (fix 9437abb) -/
 example : mpsRequest [960, 960, 960] none 2880 1 2500 (.number 1) = .notFound := by decide
+
+/-- the ledger witness of D21 after the fix: syn1's video track (irregular durations) played
+from source offset 6 s (= start of stored segment 2) for 8 s at 240 Hz lists `t=0 d=1440`,
+`t=1440 d=960`, and the hypotheses of the timeline theorems hold for it -/
+example : expand (periodTimeline [960, 480, 1440, 960, 720, 960] 5520 240 1440 8000000)
+      = [(0, 1440), (1440, 960)] ∧
+    StartsInsideLoop [960, 480, 1440, 960, 720, 960] 5520 ∧
+    PositiveDurs [960, 480, 1440, 960, 720, 960] ∧
+    mpsRequest [960, 480, 1440, 960, 720, 960]
+      (some fun j => 0 + prefixSum [960, 480, 1440, 960, 720, 960] j) 5520 1 1440 (.time 1440)
+      = .segment 3 1440 2 := by
+  unfold StartsInsideLoop PositiveDurs
+  decide
+
+/-- a whole-millisecond presentation duration: 10.0004 s is presented as 10.000 s -/
+example : quantise 10000400 = 10000000 ∧ quantise 10000500 = 10001000 := by decide
 
 end DashLive.Periods
